@@ -219,6 +219,9 @@ def parse_operand(text):
         if m:
             return ("const", body, "char")
         return ("const", body, None)
+    # a function item named without `const` (elements of tuple aggregates: `(skip_optional_whitespace, move _31)`)
+    if re.fullmatch(r"[A-Za-z][\w]*(::[A-Za-z_][\w]*)*", t) and not re.fullmatch(r"_\d+", t):
+        return ("const", t, None)
     # bare place (rare)
     return ("copy", parse_place(t))
 
